@@ -85,9 +85,6 @@ Definition short_head (t : token) : shead :=
   | _ => HOther
   end.
 
-(* exp.(ast.FunctionCall) ⇒ f.InBrackets() *)
-Definition in_brackets (e : exp) : exp := if is_call e then EParen e else e.
-
 Definition is_sep (t : token) : bool := match t with TComma | TSemi => true | _ => false end.
 
 (* The nine mutually recursive parser functions.  [step P] is one unfolding of
@@ -305,7 +302,7 @@ Definition parse_fuel (n : nat) (ts : list token) : res exp :=
   bind (p_exp n ts) (fun r => match snd r with [] => Ok (fst r) | rest => Err rest end).
 
 (* enough fuel for every input (Front/Total.v: never OutOfFuel) *)
-Definition fuel_for (ts : list token) : nat := 4 * length ts + 8.
+Definition fuel_for (ts : list token) : nat := 8 * length ts + 8.
 Definition parse (ts : list token) : res exp := parse_fuel (fuel_for ts) ts.
 
 (* ------------------------------------------------- ast.NewBinOp's list merging
